@@ -65,8 +65,14 @@ def run(tier):
     def ev_eq(va, vb):
         ha, hb = rng.choice(HOWS), rng.choice(HOWS)
         a, b = build(va, ha), build(vb, hb)
-        add({'e': 'eq', 'g': 0, 'a': enc.enc_cat(a), 'b': enc.enc_cat(b), 'res': bool(a == b), 'res2': bool(b == a),
-             'ne': bool(a != b), 'heq': hash(a) == hash(b)},
+        res, res2, ne, heq, h0 = bool(a == b), bool(b == a), bool(a != b), hash(a) == hash(b), hash(a)
+        ea, eb = enc.enc_cat(a), enc.enc_cat(b)
+        # the same objects after one of them has been printed and compared with a text
+        str(a)
+        repr(a)
+        a == 'NP'
+        add({'e': 'eq', 'g': 0, 'a': ea, 'b': eb, 'res': res, 'res2': res2,
+             'ne': ne, 'heq': heq, 'heq2': hash(a) == hash(b), 'hstable': hash(a) == h0},
             {'a': enc.show_cat(va), 'b': enc.show_cat(vb), 'built': [ha, hb]})
 
     def ev_xor(va, vb):
